@@ -436,18 +436,28 @@ class KafkaCodec(object):
 
             codec = att & ATTRIBUTE_CODEC_MASK
 
+            def absolute(inner):
+                # The messages inside a v1 wrapper carry relative offsets
+                # (0, 1, ...); the wrapper's offset is the absolute offset of
+                # the last of them.
+                inner = list(inner)
+                if inner:
+                    base = offset - inner[-1].offset
+                    for relative_offset, msg in inner:
+                        yield base + relative_offset, msg
+
             if codec == CODEC_NONE:
                 yield offset, Message(magic, att, key, value, timestamp)
 
             elif codec == CODEC_GZIP:
                 gz = gzip_decode(value)
-                for offset, msg in KafkaCodec._decode_message_set_iter(gz):
-                    yield offset, msg
+                for abs_offset, msg in absolute(KafkaCodec._decode_message_set_iter(gz)):
+                    yield abs_offset, msg
 
             elif codec == CODEC_SNAPPY:
                 snp = snappy_decode(value)
-                for offset, msg in KafkaCodec._decode_message_set_iter(snp):
-                    yield offset, msg
+                for abs_offset, msg in absolute(KafkaCodec._decode_message_set_iter(snp)):
+                    yield abs_offset, msg
 
             else:
                 raise ProtocolError("Unsupported codec 0b{:b}".format(codec))
